@@ -54,8 +54,8 @@ def parse_list(block: "BlockParser", m: Match[str], state: "BlockState") -> int:
     groups: Optional[Tuple[str, str, str]] = (m.group("list_1"), marker, text)
 
     if depth >= block.max_nested_level - 1:
-        rules = list(block.list_rules)
-        rules.remove("list")
+        # at the nesting limit no container may open another container
+        rules = [r for r in block.list_rules if r not in ("block_quote", "list")]
     else:
         rules = block.list_rules
 
